@@ -503,10 +503,21 @@ def build_item(d, canary=False, repo=REPO):
             anchor = anchor[1:]
             if body.count(anchor) == 0:
                 continue
-        n = body.count(anchor)
-        if n != 1:
-            raise AssembleError("anchor lost in %s: %r occurs %d times" % (where, anchor, n))
-        p = body.index(anchor)
+        # `text##k`: the k-th of exactly N occurrences (`text##k/N`); plain text: the only occurrence
+        mo = re.match(r"(?s)(.*)##(\d+)/(\d+)$", anchor)
+        if mo:
+            anchor, k_, of_ = mo.group(1), int(mo.group(2)), int(mo.group(3))
+            n = body.count(anchor)
+            if n != of_:
+                raise AssembleError("anchor lost in %s: %r occurs %d times, %d expected" % (where, anchor, n, of_))
+            p = -1
+            for _ in range(k_):
+                p = body.index(anchor, p + 1)
+        else:
+            n = body.count(anchor)
+            if n != 1:
+                raise AssembleError("anchor lost in %s: %r occurs %d times" % (where, anchor, n))
+            p = body.index(anchor)
         ls = body.rfind("\n", 0, p) + 1
         body = body[:ls] + txt.rstrip() + "\n" + body[ls:]
     for anchor, txt in d["after"]:
